@@ -133,6 +133,7 @@ pub struct CanaryReport {
     pub layout_skew_acts: bool,
     pub clock_pid_live: bool,
     pub fork_server_live: bool,
+    pub tid_seam_live: bool,
     pub distinct_outputs: usize,
     /// "0,1;0,2,1;…" per canary key, as the real process printed it
     pub orders_per_key: Vec<String>,
@@ -149,6 +150,7 @@ pub fn exec_canary(args: &Args) -> CanaryReport {
         layout_skew_acts: false,
         clock_pid_live: false,
         fork_server_live: false,
+        tid_seam_live: false,
         distinct_outputs: 0,
         orders_per_key: vec![],
         note: String::new(),
@@ -245,8 +247,8 @@ pub fn exec_canary(args: &Args) -> CanaryReport {
         report.clock_pid_live = text.contains("wall=1234567890")
             && text.contains("dt=777")
             && text.contains("pid=31337")
-            && log.clock_reads == 3
-            && log.pid_reads == 1;
+            && log.clock_reads == 3;
+        report.tid_seam_live = text.contains("tid=31337");
     }
     let _ = fs::remove_dir_all(&dir);
     report
@@ -443,7 +445,7 @@ fn sample_of(args: &Args, tier: Tier, r: &Value, corpus: &[String]) -> Value {
         "tier": tier.name(),
         "group": idx,
         "family": spec.family,
-        "command": format!("gram {}", spec.form.argv(if spec.path_abs { "<abs>/" } else { "" }).join(" ") + &spec.file_name),
+        "command": format!("gram {} (path form: {})", spec.form.argv(&spec.file_name).join(" "), spec.path_form),
         "colour_mode": spec.colour.name(),
         "file": String::from_utf8_lossy(&spec.source),
         "plans": spec.plans.iter().map(|p| {
@@ -506,6 +508,14 @@ pub fn run_main(args: &Args) -> i32 {
         return finish(2);
     }
 
+    // Thread ids in runtime banners: owned through gettid(); if that seam is dead here, fall back
+    // to masking them so that two launches stay comparable.
+    let mut args_owned = args.clone();
+    if !canary.tid_seam_live {
+        println!("note: gettid seam not live; thread ids in runtime banners are masked instead");
+        args_owned.mask_tid = true;
+    }
+    let args = &args_owned;
     let corpus = Arc::new(sim_harvest::harvest(&args.repo));
     println!("corpus: {} harvested programs", corpus.len());
     if corpus.len() < 10 {
@@ -707,6 +717,7 @@ pub fn run_main(args: &Args) -> i32 {
             "layout_skew_acts": canary.layout_skew_acts,
             "exec_clock_and_pid_seam_live": canary.clock_pid_live,
             "fork_server_seams_live": canary.fork_server_live,
+            "thread_id_seam_live": canary.tid_seam_live,
             "inproc_entropy_seam_live": ip_live,
             "inproc_entropy_seam_repeatable": ip_repeatable,
             "inproc_canary_distinct_outputs": ip_distinct,
